@@ -337,6 +337,7 @@ def exec_ops(case) -> Soft:
         else:
             continue
         before = observe_real(tree)
+        nfail = len(s.failures)
         ok, res = s.call(sig, fn)
         if not ok:
             # the receiver must still be intact
@@ -350,11 +351,19 @@ def exec_ops(case) -> Soft:
         if op == "root_at_midpoint" and ok:
             _check_midpoint(s, res, what)
         s.cls("op:" + op)
+        if len(s.failures) > nfail:
+            # the result is not the intended tree: whatever later steps did to it
+            # would be judged against a wrong model (seen with the known newick
+            # mis-parse of a tip named "[" which yields a tip "1.0" without length)
+            s.cls("stopped-after-failed-step")
+            break
         # continue the composition on the result
         tree = res
         ok, model = s.call(sig + "/observe", observe_real, res)
         if not ok:
             return s
+        if not _all_lengths(model):
+            break  # the statement quantifies over trees with branch lengths
         if len(m_tips(model)) < 3:
             break
     s.nontrivial = ntips >= 5 and (multif or rooted_in) and reroot
